@@ -701,7 +701,13 @@ printf("debug> '%s' is a macro.  param_count=%d\n", token, param_count);
         else
       {
         char *expanded = macros_expand_params(asm_context, macro, param_count);
-        if (expanded == NULL) { return TOKEN_EOF; }
+
+        if (expanded == NULL)
+        {
+          // The error was already printed, make sure the assembly fails.
+          asm_context->error_count++;
+          return TOKEN_EOF;
+        }
         macros_push_define(&asm_context->macros, expanded);
       }
 
